@@ -611,6 +611,7 @@ func propC05(c *Ctx) {
 	c.ruleKindVisitedAll("C05-KIND-VISITED-ALL") // a reference in a directive that nobody looks at is not resolved
 	c.ruleStringerIdentity("C05-STRINGER-IDENTITY")
 	c.ruleDisallowedCalls("C05-DISALLOWED-CALLS")
+	c.ruleIDSeparator("C05-ID-SEPARATOR")
 	c.ruleLoopFlags("C05-LOOP-FLAG")
 }
 
@@ -1562,5 +1563,69 @@ func (c *Ctx) ruleStringerIdentity(rule string) {
 	}
 	if n == 0 {
 		r.Ok(rule, "library", "no string-typed name has a String() method", "")
+	}
+}
+
+// ---------- the parts of an interaction id do not contain its separator ----------
+
+// ruleIDSeparator: the id of an interaction - its key in the catalog document - is "<protocol> <method> <path>". It
+// tells interactions apart only if one can tell where the path begins: the path must not contain a blank. (The
+// method of a JSON-RPC interaction is free text and may; with the path free of blanks the last blank of the id is the
+// one in front of the path.) A quoted parameter can hold anything, so the function that yields the path has to refuse
+// blanks itself.
+func (c *Ctx) ruleIDSeparator(rule string) {
+	r := c.R
+	r.Rule(rule, "directive.(Directive).Path returns a path only after a test that refuses a blank and a tab in it (strings.ContainsAny / IndexAny / ContainsRune on the path with an error return on a hit, dominating every successful return of the path): the id of an interaction joins protocol, method and path with blanks and is the key of the interaction in the document", 1)
+	f := c.fn("directive", "Directive.Path")
+	if f == nil {
+		r.Undecided(rule, "anchor", "directive.(Directive).Path not found", "")
+		return
+	}
+	fc := c.cfgOf(f)
+	n, bad := 0, 0
+	ast.Inspect(f.Decl.Body, func(nd ast.Node) bool {
+		ret, ok := nd.(*ast.ReturnStmt)
+		if !ok || len(ret.Results) != 2 || !isNil(f.Pkg, ret.Results[1]) {
+			return true
+		}
+		id, ok := ast.Unparen(ret.Results[0]).(*ast.Ident)
+		if !ok {
+			return true // handed on from the parent's Path(): judged there
+		}
+		n++
+		obj := f.Pkg.TypesInfo.Uses[id]
+		refused := fc.establishedAt(ret, func(cond ast.Expr, trueEdge bool) bool {
+			call, ok := ast.Unparen(cond).(*ast.CallExpr)
+			if !ok || trueEdge || len(call.Args) != 2 {
+				return false
+			}
+			cal := callee(f.Pkg, call)
+			if cal == nil || cal.Pkg() == nil || cal.Pkg().Path() != "strings" || (cal.Name() != "ContainsAny" && cal.Name() != "IndexAny" && cal.Name() != "ContainsRune" && cal.Name() != "Contains") {
+				return false
+			}
+			aid, ok := ast.Unparen(call.Args[0]).(*ast.Ident)
+			if !ok || f.Pkg.TypesInfo.Uses[aid] != obj {
+				return false
+			}
+			set, isStr := constString(f.Pkg, call.Args[1])
+			if !isStr {
+				if k, isK := constInt(f.Pkg, call.Args[1]); isK && k == ' ' {
+					return true
+				}
+				return false
+			}
+			return strings.ContainsRune(set, ' ')
+		}, nil)
+		key := f.Name() + " | return " + id.Name
+		if refused {
+			r.Ok(rule, key, "a path with a blank is refused before it is returned", c.pos(ret.Pos()))
+		} else {
+			bad++
+			r.Bad(rule, key, "a path is returned that may contain a blank: the id '<protocol> <method> <path>' no longer says where the path begins, and two different interactions (the JSON-RPC method \"a /x\" of /y, the method a of \"/x /y\") get the same key in the catalog document", c.pos(ret.Pos()))
+		}
+		return true
+	})
+	if n == 0 {
+		r.Undecided(rule, "sites", "Directive.Path returns no path variable", c.pos(f.Decl.Pos()))
 	}
 }
